@@ -186,6 +186,31 @@ def check_roundtrips(res, spec, only_chain=None):
                 res.note("rt", f"{c}:exported:equal")
 
 
+    # a dictionary export is a value: a caller who edits the TOP LEVEL of one export (re-assigns / drops keys) does not
+    # change what the next export of the same object says, nor the object it re-imports to
+    if only_chain is None or only_chain == ["edited-export"]:
+        o3 = lib.outcome(W.build, spec)
+        if o3[0] == "ok" and hasattr(o3[1], "to_dict"):
+            twin = o3[1]
+            is_ac = c == "ac"
+            exp = (lambda: twin.to_dict(export_parent=True)) if is_ac else twin.to_dict
+            d1 = lib.outcome(exp)
+            if d1[0] == "ok" and isinstance(d1[1], dict):
+                for k_ in list(d1[1]):
+                    d1[1][k_] = "edited by the caller"
+                d1[1].clear()
+                lib.outcome(exp)
+                res.trans()
+                case = {"part": "rt", "spec": spec, "chain": ["edited-export"]}
+                probs, _ = _compare(origin, oc, twin)
+                if probs:
+                    res.note("rt", f"{c}:edited-export:differs")
+                    res.deviation("roundtrip", case, probs, "twin whose first export was edited by the caller equal to origin", sig=f"rt:{c}:edited-export:{_first_key(probs)}",
+                                  cls=c, step="edited-export", depth=1, pk=pkind(spec))
+                else:
+                    res.note("rt", f"{c}:edited-export:equal")
+
+
 # ---------------------------------------------------------------------------------------------------------------------
 # Part 3: sensitivity of identifiers
 # ---------------------------------------------------------------------------------------------------------------------
